@@ -45,6 +45,21 @@ def exempted(fi, kind, text):
     return None
 
 
+def _is_abstract_hook(repo, fi):
+    """fi is a method of class C; every class below C that has no subclass of its own (a concrete leaf) finds another definition
+    of the method before C in its MRO, and C has at least one such leaf."""
+    base = fi.cls.name
+    subs = [n for n in repo.subclasses(base) if n != base]
+    leaves = [n for n in subs if not [m for m in repo.subclasses(n) if m != n]]
+    if not leaves:
+        return False
+    for leaf in leaves:
+        f = repo.method(leaf, fi.name, required=False)
+        if f is None or f is fi:
+            return False
+    return True
+
+
 def is_lib_error(repo, cls):
     return repo.has_cls(cls) and repo.is_subclass(cls, ROOT)
 
@@ -76,6 +91,9 @@ def rule_r1(repo):
             ex = exempted(fi, 'raise ' + cls, msg)
             if ex is not None:
                 used.add((ex[2], ex[1]))
+                continue
+            if cls == 'NotImplementedError' and fi.cls is not None and _is_abstract_hook(repo, fi):
+                # a hook that every concrete subclass overrides: the statement is the marker of an abstract method, never executed
                 continue
             rr.fail('%s:raise %s' % (fi.qualname, cls), '%s:%d' % (fi.module.relpath, r.lineno),
                     'reachable from Decoder.process: raises %s, which is not a subclass of %s, so it escapes '
